@@ -1055,7 +1055,7 @@ func init() {
 				dsListSequences(c, c.Case-16, 16, tier(c.Tier, 3, 4))
 			case c.Case < 32+nRand:
 				dsListRandom(c, tier(c.Tier, 300, 3000), 30)
-			case c.Case%16 == 9:
+			case slot(c, 16) == 9:
 				largeHistory(c, "tx-list", largeOpts{Kind: "list", Modes: []int{0}})
 			default:
 				dsTxHistory(c, "list", "tx-list")
@@ -1080,7 +1080,7 @@ func init() {
 				dsSetExhaustive(c, tier(c.Tier, 3, 4))
 				return
 			}
-			if c.Case%16 == 9 {
+			if slot(c, 16) == 9 {
 				largeHistory(c, "tx-set", largeOpts{Kind: "set", Modes: []int{0}, Merge: true})
 				return
 			}
@@ -1106,7 +1106,7 @@ func init() {
 				dsZExhaustive(c, c.Case, 25, tier(c.Tier, 2, 24))
 			case c.Case < 25+nRand:
 				dsZRandom(c, tier(c.Tier, 150, 2000), 40)
-			case c.Case%16 == 9:
+			case slot(c, 16) == 9:
 				largeHistory(c, "tx-zset", largeOpts{Kind: "zset", Modes: []int{0}, Merge: true})
 			default:
 				dsTxHistory(c, "zset", "tx-zset")
